@@ -70,6 +70,14 @@ def run(prop, gi, g, tier, known, do_replay):
     # the encoder could not execute the (changed) code: the solver gives no verdict. As a safety net the native scenario
     # families of the stream replay program are run; a natively failing scenario is still a real, replayed violation.
     enc_fail = [i for i in out["inconclusive"] if "encode" in i or "outside the encoder" in i or "no obligation" in i]
+    if enc_fail and not out["violations"] and do_replay and prop in ("C13", "C20") or (enc_fail and not out["violations"] and do_replay and prop == "C05" and "L8" in g["lemmas"]):
+        from . import slicereplay
+        fn = os.path.join(VERIF, "replays", prop, "native_fallback_slice.txt")
+        os.makedirs(os.path.dirname(fn), exist_ok=True)
+        open(fn, "w").write(f"# {prop}: engine B could not encode the current tree ({enc_fail[0][:300]}); native slice families run instead\n")
+        rp = slicereplay.confirm(prop, "native_fallback", {}, fn)
+        if rp["reproduced"]:
+            out["violations"].append(dict(harness="native slice families (encoder fallback)", what=rp["detail"], replay=rp["path"]))
     if enc_fail and not out["violations"] and g.get("native_fallback", True) and do_replay and prop in ("C05", "C07", "C08", "C17", "C18"):
         from . import streamreplay
         fn = os.path.join(VERIF, "replays", prop, "native_fallback.txt")
@@ -97,5 +105,9 @@ def replay(prop, name, ob, d, do_replay):
         f.write(f"# engine-B counterexample for {prop}, obligation {name}\n# {ob['detail']}\n")
     if not do_replay:
         return dict(reproduced=True, path=fn, detail="replay skipped")
+    slice_side = prop in ("C13", "C20", "C01") or (prop == "C05" and "stream" not in name)
+    if slice_side:
+        from . import slicereplay
+        return slicereplay.confirm(prop, name, ob, fn)
     from . import streamreplay
     return streamreplay.confirm(prop, name, ob, fn)
